@@ -131,6 +131,9 @@ Proof.
     rewrite ctext_units. exact E.
 Qed.
 
+Lemma pos_eta p : mkpos (byte p) (line p) (col p) = p.
+Proof. destruct p; reflexivity. Qed.
+
 (** * The canonical position advances unit by unit *)
 
 Definition adv (m : metrics) (p : pos) (u : unit) : pos :=
@@ -143,32 +146,57 @@ Lemma last_line_snoc us u :
   last_line (us ++ [u]) = match u with ULb => [] | UCh c => last_line us ++ [c] end.
 Proof. unfold last_line. rewrite fold_left_app. reflexivity. Qed.
 
-Lemma width_snoc tw l c : width tw (l ++ [c]) = width_step tw (width tw l) c.
-Proof. unfold width. rewrite fold_left_app. reflexivity. Qed.
+Lemma width_from_snoc tw c0 l c : width_from tw c0 (l ++ [c]) = width_step tw (width_from tw c0 l) c.
+Proof. unfold width_from. rewrite fold_left_app. reflexivity. Qed.
 
-Lemma canon_snoc m us u : canon_u m (us ++ [u]) = adv m (canon_u m us) u.
+Lemma canon_snoc m p0 us u : canon_from m p0 (us ++ [u]) = adv m (canon_from m p0 us) u.
 Proof.
-  unfold canon_u. rewrite ubytes_app, breaks_app, last_line_snoc.
+  unfold canon_from. rewrite ubytes_app, breaks_app, last_line_snoc.
   destruct u as [|c]; cbn [adv].
   - unfold nl_pos; cbn [byte line col]. unfold ubytes at 2; cbn [ctext flat_map utext].
-    rewrite app_nil_r, lb_text_blen. cbn [breaks filter is_lb length]. f_equal; lia.
-  - rewrite width_snoc. unfold ubytes at 2; cbn [ctext flat_map utext app blen breaks filter is_lb length].
+    rewrite app_nil_r, lb_text_blen. cbn [breaks filter is_lb length].
+    replace (breaks us + 1 =? 0) with false by (symmetry; apply Nat.eqb_neq; lia).
+    f_equal; lia.
+  - rewrite width_from_snoc. unfold ubytes at 2; cbn [ctext flat_map utext app blen breaks filter is_lb length].
+    rewrite !Nat.add_0_r.
     unfold step_pure, width_step; cbn [byte line col]. destruct c; cbn [clen cwidth]; f_equal; lia.
 Qed.
 
-Lemma P_0 m us : P m us 0 = pos_zero.
-Proof. reflexivity. Qed.
-
-Lemma P_S m us k u : nth_error us k = Some u -> P m us (S k) = adv m (P m us k) u.
-Proof. intros H. unfold P. rewrite (firstn_snoc_nth k us u H). apply canon_snoc. Qed.
-
-Lemma P_byte m us k : byte (P m us k) = ubytes m (firstn k us).
-Proof. reflexivity. Qed.
-
-Lemma P_byte_mono m us j k : wf_units m us -> j < k -> k <= length us ->
-  byte (P m us j) < byte (P m us k).
+Lemma canon_from_fold m p0 pre x :
+  fold_left (adv m) x (canon_from m p0 pre) = canon_from m p0 (pre ++ x).
 Proof.
-  intros Hwf Hjk Hk. rewrite !P_byte.
+  revert pre; induction x as [|u r IH]; intros pre; cbn [fold_left]; [rewrite app_nil_r; reflexivity|].
+  rewrite <- canon_snoc, IH, <- app_assoc. reflexivity.
+Qed.
+
+Lemma canon_from_zero m us : canon_from m pos_zero us = canon_u m us.
+Proof.
+  unfold canon_from, canon_u, width. cbn [pos_zero byte line col Nat.add].
+  destruct (breaks us =? 0); reflexivity.
+Qed.
+
+Lemma Pf_zero m us k : Pf m pos_zero us k = P m us k.
+Proof. apply canon_from_zero. Qed.
+
+Lemma Pf_0 m p0 us : Pf m p0 us 0 = p0.
+Proof.
+  unfold Pf, canon_from. cbn [firstn ubytes ctext flat_map blen breaks filter length last_line fold_left Nat.eqb width_from].
+  rewrite !Nat.add_0_r. apply pos_eta.
+Qed.
+
+Lemma Pf_S m p0 us k u : nth_error us k = Some u -> Pf m p0 us (S k) = adv m (Pf m p0 us k) u.
+Proof. intros H. unfold Pf. rewrite (firstn_snoc_nth k us u H). apply canon_snoc. Qed.
+
+Lemma Pf_byte m p0 us k : byte (Pf m p0 us k) = byte p0 + ubytes m (firstn k us).
+Proof. reflexivity. Qed.
+
+Lemma Pf_line m p0 us k : line (Pf m p0 us k) = line p0 + breaks (firstn k us).
+Proof. reflexivity. Qed.
+
+Lemma Pf_byte_mono m p0 us j k : wf_units m us -> j < k -> k <= length us ->
+  byte (Pf m p0 us j) < byte (Pf m p0 us k).
+Proof.
+  intros Hwf Hjk Hk. rewrite !Pf_byte.
   replace (firstn k us) with (firstn j us ++ firstn (k - j) (skipn j us)).
   2:{ rewrite <- (firstn_skipn j (firstn k us)). rewrite firstn_firstn, Nat.min_l by lia.
       f_equal. rewrite firstn_skipn_comm. replace (j + (k - j)) with k by lia. reflexivity. }
@@ -183,6 +211,10 @@ Proof.
       change [u] with (firstn 1 (u :: r)). apply wf_units_firstn, Hs. }
     lia.
 Qed.
+
+Lemma P_byte_mono m us j k : wf_units m us -> j < k -> k <= length us ->
+  byte (P m us j) < byte (P m us k).
+Proof. rewrite <- !Pf_zero. apply Pf_byte_mono. Qed.
 
 (** * Line structure of unit lists *)
 
@@ -257,36 +289,28 @@ Section Impl.
   Lemma le_scan_lb s p : starts_lb m s = true -> le_scan m s p = Ok p.
   Proof. destruct s as [|c r]; intros H; [reflexivity|]. cbn [le_scan]. rewrite H. reflexivity. Qed.
 
-  Lemma le_scan_units suf pre : wf_units m suf ->
-    le_scan m (ctext m suf) (canon_u m pre) = Ok (canon_u m (pre ++ firstn (run_len suf) suf)).
+  Lemma le_scan_units suf p : wf_units m suf ->
+    le_scan m (ctext m suf) p = Ok (fold_left (adv m) (firstn (run_len suf) suf) p).
   Proof.
-    revert pre; induction suf as [|[|c] r IH]; intros pre; cbn [wf_units]; intros H.
-    - cbn. rewrite app_nil_r. reflexivity.
-    - rewrite ctext_cons. cbn [utext]. rewrite le_scan_lb by apply starts_lb_lb_text.
-      cbn [run_len firstn]. rewrite app_nil_r. reflexivity.
+    revert p; induction suf as [|[|c] r IH]; intros p; cbn [wf_units]; intros H.
+    - reflexivity.
+    - rewrite ctext_cons. cbn [utext]. rewrite le_scan_lb by apply starts_lb_lb_text. reflexivity.
     - destruct H as (_ & Hs & Hr). rewrite ctext_cons. cbn [utext app le_scan].
-      rewrite Hs, step_ok. cbn [bind].
-      change (step_pure m (canon_u m pre) c) with (adv m (canon_u m pre) (UCh c)).
-      rewrite <- canon_snoc, (IH _ Hr). cbn [run_len firstn]. rewrite <- app_assoc. reflexivity.
+      rewrite Hs, step_ok. cbn [bind]. rewrite (IH _ Hr). reflexivity.
   Qed.
 
-  Lemma end_scan_units suf pre : wf_units m suf ->
-    end_scan m (ctext m suf) (canon_u m pre) = Ok (canon_u m (pre ++ suf)).
+  Lemma end_scan_units suf p : wf_units m suf ->
+    end_scan m (ctext m suf) p = Ok (fold_left (adv m) suf p).
   Proof.
-    revert pre; induction suf as [|[|c] r IH]; intros pre; cbn [wf_units]; intros H.
-    - cbn. rewrite app_nil_r. reflexivity.
-    - rewrite ctext_cons. cbn [utext].
-      change (nl_pos m (canon_u m pre)) with (adv m (canon_u m pre) ULb) in *.
-      assert (E : end_scan m (lb_text m ++ ctext m r) (canon_u m pre)
-                  = end_scan m (ctext m r) (adv m (canon_u m pre) ULb)).
+    revert p; induction suf as [|[|c] r IH]; intros p; cbn [wf_units]; intros H.
+    - reflexivity.
+    - rewrite ctext_cons. cbn [utext fold_left adv].
+      assert (E : end_scan m (lb_text m ++ ctext m r) p = end_scan m (ctext m r) (nl_pos m p)).
       { unfold lb_text. destruct (le m) eqn:L; cbn [app end_scan]; unfold starts_lb; rewrite L; reflexivity. }
-      rewrite E, <- canon_snoc, (IH _ H), <- app_assoc. reflexivity.
+      rewrite E. apply (IH _ H).
     - destruct H as (_ & Hs & Hr). rewrite ctext_cons. cbn [utext app end_scan].
-      rewrite Hs, step_ok. cbn [bind].
-      change (step_pure m (canon_u m pre) c) with (adv m (canon_u m pre) (UCh c)).
-      rewrite <- canon_snoc, (IH _ Hr), <- app_assoc. reflexivity.
+      rewrite Hs, step_ok. cbn [bind]. apply (IH _ Hr).
   Qed.
-
 End Impl.
 
 Section ImplBack.
@@ -351,31 +375,41 @@ Proof.
   cbn [firstn skipn app Nat.add]. f_equal. apply IH.
 Qed.
 
-Lemma pos_eta p : mkpos (byte p) (line p) (col p) = p.
-Proof. destruct p; reflexivity. Qed.
+Fixpoint class_run (m : metrics) (f : chr -> bool) (suf : list unit) : nat :=
+  match suf with
+  | u :: r => if forallb f (utext m u) then S (class_run m f r) else 0
+  | [] => 0
+  end.
 
 Section Nav.
   Variable m : metrics.
   Hypothesis Htab : 1 <= tabw m.
   Variable us : list unit.
   Hypothesis Hwf : wf_units m us.
-  Let t := ctext m us.
-  Let n := length us.
+  (** measurement starts at [p0]: byte 0 of the text, any line and column *)
+  Variable p0 : pos.
+  Hypothesis Hp0 : byte p0 = 0.
+  Local Notation t := (ctext m us).
+  Local Notation n := (length us).
+  Local Notation Q := (Pf m p0 us).
 
-  Lemma P_n_byte : byte (P m us n) = blen t.
-  Proof. unfold P, n. rewrite firstn_all. reflexivity. Qed.
+  Lemma Q_byte k : byte (Q k) = ubytes m (firstn k us).
+  Proof. rewrite Pf_byte, Hp0. reflexivity. Qed.
+
+  Lemma Q_n_byte : byte (Q n) = blen t.
+  Proof. rewrite Q_byte, firstn_all. reflexivity. Qed.
 
   Lemma split_P k : k <= n ->
-    split_at t (byte (P m us k)) = Some (ctext m (firstn k us), ctext m (skipn k us)).
+    split_at t (byte (Q k)) = Some (ctext m (firstn k us), ctext m (skipn k us)).
   Proof.
-    intros _. unfold t. rewrite <- (firstn_skipn k us) at 1. rewrite ctext_app.
+    intros _. rewrite Q_byte. rewrite <- (firstn_skipn k us) at 1. rewrite ctext_app.
     apply split_at_app. apply wf_units_wf_text, wf_units_firstn, Hwf.
   Qed.
 
   Lemma split_before_P k : k <= n ->
-    split_before t (byte (P m us k)) = (ctext m (firstn k us), ctext m (skipn k us)).
+    split_before t (byte (Q k)) = (ctext m (firstn k us), ctext m (skipn k us)).
   Proof.
-    intros _. unfold t. rewrite <- (firstn_skipn k us) at 1. rewrite ctext_app.
+    intros _. rewrite Q_byte. rewrite <- (firstn_skipn k us) at 1. rewrite ctext_app.
     apply split_before_app. apply wf_units_wf_text, wf_units_firstn, Hwf.
   Qed.
 
@@ -383,22 +417,22 @@ Section Nav.
   Proof.
     intros Hk. destruct (nth_error us k) as [u|] eqn:E.
     - exists u. split; [reflexivity|apply skipn_cons_nth, E].
-    - apply nth_error_None in E. unfold n in Hk. lia.
+    - apply nth_error_None in E. lia.
   Qed.
 
   Theorem next_position_P k : k <= n ->
-    next_position m t (P m us k) = Ok (if k <? n then Some (P m us (S k)) else None).
+    next_position m t (Q k) = Ok (if k <? n then Some (Q (S k)) else None).
   Proof.
     intros Hk. unfold next_position. rewrite (split_P k Hk).
     rewrite (next_suf_units m Htab _ _ (wf_units_skipn m k us Hwf)).
     destruct (Nat.ltb_spec k n) as [Hlt|Hge].
     - destruct (skipn_nth k Hlt) as (u & Hn & Hs). rewrite Hs. cbn [bind option_map fst].
-      rewrite (P_S m us k u Hn). reflexivity.
-    - rewrite skipn_all2 by (fold n; lia). reflexivity.
+      rewrite (Pf_S m p0 us k u Hn). reflexivity.
+    - rewrite skipn_all2 by lia. reflexivity.
   Qed.
 
   Theorem is_line_break_P k : k <= n ->
-    is_line_break m t (byte (P m us k)) =
+    is_line_break m t (byte (Q k)) =
     Ok (match nth_error us k with Some u => is_lb u | None => false end).
   Proof.
     intros Hk. unfold is_line_break. rewrite (split_P k Hk). f_equal.
@@ -408,65 +442,101 @@ Section Nav.
       destruct u as [|c]; rewrite ctext_cons; cbn [utext is_lb].
       + apply starts_lb_lb_text.
       + cbn [wf_units] in Hu. destruct Hu as (_ & E & _). exact E.
-    - rewrite skipn_all2 by (fold n; lia). cbn. rewrite starts_lb_nil.
+    - rewrite skipn_all2 by lia. cbn. rewrite starts_lb_nil.
       destruct (nth_error us k) eqn:E; [|reflexivity].
-      assert (k < length us) by (apply nth_error_Some; congruence). unfold n in Hge. lia.
+      assert (k < length us) by (apply nth_error_Some; congruence). lia.
   Qed.
+
+  Lemma Q_fold k x : fold_left (adv m) x (Q k) = canon_from m p0 (firstn k us ++ x).
+  Proof. apply canon_from_fold. Qed.
 
   Theorem line_end_position_P k : k <= n ->
-    line_end_position m t (P m us k) = Ok (P m us (line_end_k us k)).
+    line_end_position m t (Q k) = Ok (Q (line_end_k us k)).
   Proof.
     intros Hk. unfold line_end_position, line_end_k.
-    destruct (Nat.leb_spec (blen t) (byte (P m us k))) as [Hle|Hlt].
+    destruct (Nat.leb_spec (blen t) (byte (Q k))) as [Hle|Hlt].
     - assert (k = n).
       { destruct (Nat.eq_dec k n) as [|Hne]; [assumption|].
-        pose proof (P_byte_mono m us k n Hwf ltac:(lia) ltac:(unfold n; lia)). rewrite P_n_byte in H. lia. }
-      subst k. rewrite skipn_all2 by (fold n; lia). cbn [run_len]. rewrite Nat.add_0_r. reflexivity.
-    - rewrite (split_P k Hk). unfold P at 1.
-      rewrite (le_scan_units m Htab _ _ (wf_units_skipn m k us Hwf)), firstn_add. reflexivity.
+        pose proof (Pf_byte_mono m p0 us k n Hwf ltac:(lia) ltac:(lia)). rewrite Q_n_byte in H. lia. }
+      subst k. rewrite skipn_all2 by lia. cbn [run_len]. rewrite Nat.add_0_r. reflexivity.
+    - rewrite (split_P k Hk).
+      rewrite (le_scan_units m Htab _ _ (wf_units_skipn m k us Hwf)), Q_fold, firstn_add. reflexivity.
   Qed.
 
-  (** line_start_position reads only the byte and the line of its argument *)
-  Lemma line_start_position_gen k q : k <= n -> byte q = byte (P m us k) -> line q = line (P m us k) ->
-    line_start_position m t q = Ok (P m us (line_start_k us k)).
+  (** line_start_position reads only the byte and the line of its argument; its column is
+      0, which is the canonical column unless the line is the first line of a text that
+      starts at a non-zero column. *)
+  Lemma line_start_position_gen k q : k <= n -> byte q = byte (Q k) -> line q = line (Q k) ->
+    line_start_position m t q = Ok (mkpos (byte (Q (line_start_k us k))) (line (Q k)) 0).
   Proof.
     intros Hk Hb Hl. unfold line_start_position. rewrite Hb, (split_before_P k Hk).
     rewrite (ls_scan_units m (firstn k us) (skipn k us)) by (rewrite firstn_skipn; exact Hwf).
-    f_equal. unfold P, canon_u, line_start_k.
+    rewrite Hl, Q_byte. unfold line_start_k.
     pose proof (line_start_k_le us k) as Hle. unfold line_start_k in Hle.
-    rewrite <- (firstn_firstn_le (lsk (firstn k us)) k us Hle).
-    destruct (lsk_facts (firstn k us)) as [E1 E2]. rewrite E1, E2.
-    rewrite Hl. reflexivity.
+    rewrite (firstn_firstn_le (lsk (firstn k us)) k us Hle). reflexivity.
   Qed.
 
-  Theorem line_start_position_P k : k <= n ->
-    line_start_position m t (P m us k) = Ok (P m us (line_start_k us k)).
-  Proof. intros Hk. apply (line_start_position_gen k _ Hk); reflexivity. Qed.
+  Definition first_line_ok (k : nat) : Prop := col p0 = 0 \/ 0 < line_start_k us k.
+
+  Lemma line_start_canon k : k <= n -> first_line_ok k ->
+    mkpos (byte (Q (line_start_k us k))) (line (Q k)) 0 = Q (line_start_k us k).
+  Proof.
+    intros Hk Hok.
+    pose proof (line_start_k_le us k) as Hle.
+    assert (EF : firstn (line_start_k us k) us = firstn (lsk (firstn k us)) (firstn k us)).
+    { unfold line_start_k in *. symmetry. apply firstn_firstn_le. exact Hle. }
+    destruct (lsk_facts (firstn k us)) as [E1 E2]. rewrite <- EF in E1, E2.
+    unfold Pf, canon_from. cbn [byte line col]. rewrite E1, E2. cbn [width_from fold_left].
+    f_equal.
+    destruct (Nat.eqb_spec (breaks (firstn k us)) 0) as [Ez|]; [|reflexivity].
+    destruct Hok as [H0|Hpos]; [symmetry; exact H0|].
+    (* a line start after position 0 follows a line break *)
+    exfalso. unfold line_start_k, lsk in Hpos.
+    assert (G : forall l : list unit, breaks l = 0 -> run_len (rev l) = length l).
+    { induction l as [|u l IH] using rev_ind; [reflexivity|].
+      rewrite breaks_app, rev_app_distr, app_length. cbn [rev app length].
+      destruct u as [|c]; cbn [breaks filter is_lb length run_len]; [lia|].
+      intros Hb. rewrite IH by (unfold breaks in *; lia). lia. }
+    rewrite (G _ Ez) in Hpos. lia.
+  Qed.
+
+  Theorem line_start_position_P k : k <= n -> first_line_ok k ->
+    line_start_position m t (Q k) = Ok (Q (line_start_k us k)).
+  Proof.
+    intros Hk Hok. rewrite (line_start_position_gen k _ Hk eq_refl eq_refl).
+    rewrite (line_start_canon k Hk Hok). reflexivity.
+  Qed.
 
   Lemma walk_to_P fuel i k : i <= k -> k <= n -> k - i < fuel ->
-    walk_to fuel m t (P m us i) (byte (P m us k)) = Ok (P m us k).
+    walk_to fuel m t (Q i) (byte (Q k)) = Ok (Q k).
   Proof.
     revert i; induction fuel as [|f IH]; intros i Hik Hk Hf; [lia|].
-    cbn [walk_to]. destruct (Nat.leb_spec (byte (P m us k)) (byte (P m us i))) as [Hle|Hlt].
+    cbn [walk_to]. destruct (Nat.leb_spec (byte (Q k)) (byte (Q i))) as [Hle|Hlt].
     - destruct (Nat.eq_dec i k) as [->|Hne]; [reflexivity|].
-      pose proof (P_byte_mono m us i k Hwf ltac:(lia) Hk). lia.
+      pose proof (Pf_byte_mono m p0 us i k Hwf ltac:(lia) Hk). lia.
     - assert (i < k). { destruct (Nat.eq_dec i k) as [->|]; lia. }
       rewrite (next_position_P i ltac:(lia)). destruct (Nat.ltb_spec i n); [|lia].
       cbn [bind]. apply IH; lia.
   Qed.
 
-  Lemma position_in_line_P k q : k <= n -> byte q = byte (P m us k) -> line q = line (P m us k) ->
-    position_in_line m t q = Ok (P m us k).
+  Lemma position_in_line_P k q : k <= n -> first_line_ok k ->
+    byte q = byte (Q k) -> line q = line (Q k) ->
+    position_in_line m t q = Ok (Q k).
   Proof.
-    intros Hk Hb Hl. unfold position_in_line. rewrite (line_start_position_gen k q Hk Hb Hl).
-    cbn [bind]. rewrite Hb. apply walk_to_P; [apply (line_start_k_le us k)|exact Hk|].
-    pose proof (units_length_le m us). fold n t in H. lia.
+    intros Hk Hok Hb Hl. unfold position_in_line. rewrite (line_start_position_gen k q Hk Hb Hl).
+    cbn [bind]. rewrite (line_start_canon k Hk Hok), Hb.
+    apply walk_to_P; [apply (line_start_k_le us k)|exact Hk|].
+    pose proof (units_length_le m us). lia.
   Qed.
 
+  (** Stepping back: over an ordinary character the column is subtracted; over a tab or a
+      line break it is re-measured from the line start (hence the first-line condition). *)
   Theorem previous_position_P k : k <= n ->
-    previous_position m t (P m us k) = Ok (match k with 0 => None | S k' => Some (P m us k') end).
+    (forall k', k = S k' -> (nth_error us k' = Some ULb \/ nth_error us k' = Some (UCh Tab)) ->
+                first_line_ok k') ->
+    previous_position m t (Q k) = Ok (match k with 0 => None | S k' => Some (Q k') end).
   Proof.
-    intros Hk. unfold previous_position. rewrite (split_P k Hk).
+    intros Hk Hok. unfold previous_position. rewrite (split_P k Hk).
     destruct k as [|k'].
     - cbn [firstn ctext flat_map rev]. unfold ends_lb. destruct (le m); reflexivity.
     - destruct (skipn_nth k' ltac:(lia)) as (u & Hn & Hs).
@@ -474,83 +544,43 @@ Section Nav.
       assert (Hw : wf_units m (firstn k' us ++ u :: skipn (S k') us)).
       { rewrite <- Hs, firstn_skipn. exact Hwf. }
       rewrite (ends_lb_units m _ _ _ Hw).
-      pose proof (P_S m us k' u Hn) as HP.
+      pose proof (Pf_S m p0 us k' u Hn) as HP.
       destruct u as [|c]; cbn [is_lb].
       + cbn [adv] in HP. unfold nl_pos in HP.
-        assert (Hl : line (P m us (S k')) = line (P m us k') + 1) by (rewrite HP; reflexivity).
-        assert (Hb : byte (P m us (S k')) = byte (P m us k') + lb_len m) by (rewrite HP; reflexivity).
+        assert (Hl : line (Q (S k')) = line (Q k') + 1) by (rewrite HP; reflexivity).
+        assert (Hb : byte (Q (S k')) = byte (Q k') + lb_len m) by (rewrite HP; reflexivity).
         rewrite Hl, sub_chk_ok by lia. cbn [bind].
-        rewrite (position_in_line_P k'); [reflexivity|lia|cbn [byte]; lia|cbn [line]; lia].
+        rewrite (position_in_line_P k'); [reflexivity|lia|apply (Hok k' eq_refl); left; exact Hn
+                                         |cbn [byte]; lia|cbn [line]; lia].
       + rewrite ctext_app, rev_app_distr. unfold ctext at 1. cbn [flat_map utext rev app].
         cbn [adv] in HP.
         destruct c as [| | |l w i].
         * unfold step_pure in HP.
-          assert (Hl : line (P m us (S k')) = line (P m us k')) by (rewrite HP; reflexivity).
-          assert (Hb : byte (P m us (S k')) = byte (P m us k') + 1) by (rewrite HP; reflexivity).
-          rewrite (position_in_line_P k'); [reflexivity|lia|cbn [byte]; lia|cbn [line]; lia].
+          assert (Hl : line (Q (S k')) = line (Q k')) by (rewrite HP; reflexivity).
+          assert (Hb : byte (Q (S k')) = byte (Q k') + 1) by (rewrite HP; reflexivity).
+          rewrite (position_in_line_P k'); [reflexivity|lia|apply (Hok k' eq_refl); right; exact Hn
+                                           |cbn [byte]; lia|cbn [line]; lia].
         * rewrite HP. unfold step_pure. cbn [col line byte clen cwidth].
           rewrite sub_chk_ok by lia. cbn [bind]. do 2 f_equal.
-          rewrite <- (pos_eta (P m us k')) at 4. f_equal; lia.
+          rewrite <- (pos_eta (Q k')) at 4. f_equal; lia.
         * rewrite HP. unfold step_pure. cbn [col line byte clen cwidth].
           rewrite sub_chk_ok by lia. cbn [bind]. do 2 f_equal.
-          rewrite <- (pos_eta (P m us k')) at 4. f_equal; lia.
+          rewrite <- (pos_eta (Q k')) at 4. f_equal; lia.
         * rewrite HP. unfold step_pure. cbn [col line byte clen cwidth].
           rewrite sub_chk_ok by lia. cbn [bind]. do 2 f_equal.
-          rewrite <- (pos_eta (P m us k')) at 4. f_equal; lia.
-  Qed.
-End Nav.
-
-(** * Measurement, composite navigation, pattern advances *)
-
-Fixpoint class_run (m : metrics) (f : chr -> bool) (suf : list unit) : nat :=
-  match suf with
-  | u :: r => if forallb f (utext m u) then S (class_run m f r) else 0
-  | [] => 0
-  end.
-
-Section Nav2.
-  Variable m : metrics.
-  Hypothesis Htab : 1 <= tabw m.
-  Variable us : list unit.
-  Hypothesis Hwf : wf_units m us.
-  Local Notation t := (ctext m us).
-  Let n := length us.
-
-  Lemma start_loop_P fuel k : k <= n -> k < fuel -> start_loop fuel m t (P m us k) = Ok (P m us 0).
-  Proof.
-    revert k; induction fuel as [|f IH]; intros k Hk Hf; [lia|].
-    cbn [start_loop]. destruct k as [|k'].
-    - reflexivity.
-    - pose proof (P_byte_mono m us 0 (S k') Hwf ltac:(lia) Hk) as Hm.
-      destruct (Nat.eqb_spec (byte (P m us (S k'))) 0) as [E|_]; [lia|].
-      rewrite (previous_position_P m Htab us Hwf (S k') Hk). cbn [bind]. apply IH; lia.
+          rewrite <- (pos_eta (Q k')) at 4. f_equal; lia.
   Qed.
 
-  Theorem start_position_P k : k <= n -> start_position m t (P m us k) = Ok (P m us 0).
-  Proof.
-    intros Hk. unfold start_position. apply start_loop_P; [exact Hk|].
-    pose proof (units_length_le m us). fold n in H. lia.
-  Qed.
-
-  Theorem end_position_P k : k <= n -> end_position m t (P m us k) = Ok (P m us n).
+  Theorem end_position_P k : k <= n -> end_position m t (Q k) = Ok (Q n).
   Proof.
     intros Hk. unfold end_position.
-    destruct (Nat.leb_spec (blen t) (byte (P m us k))) as [Hle|Hlt].
+    destruct (Nat.leb_spec (blen t) (byte (Q k))) as [Hle|Hlt].
     - destruct (Nat.eq_dec k n) as [->|Hne]; [reflexivity|].
-      pose proof (P_byte_mono m us k n Hwf ltac:(lia) ltac:(unfold n; lia)).
-      unfold n in H. rewrite (P_n_byte m Htab us Hwf) in H. lia.
-    - rewrite (split_P m Htab us Hwf k Hk). unfold P at 1.
-      rewrite (end_scan_units m Htab _ _ (wf_units_skipn m k us Hwf)), firstn_skipn.
-      unfold P, n. rewrite firstn_all. reflexivity.
-  Qed.
-
-  Theorem previous_line_end_position_P k : k <= n ->
-    previous_line_end_position m t (P m us k) =
-    Ok (match line_start_k us k with 0 => None | S j => Some (P m us j) end).
-  Proof.
-    intros Hk. unfold previous_line_end_position.
-    rewrite (line_start_position_P m Htab us Hwf k Hk). cbn [bind].
-    apply (previous_position_P m Htab us Hwf). pose proof (line_start_k_le us k). fold n. lia.
+      pose proof (Pf_byte_mono m p0 us k n Hwf ltac:(lia) ltac:(lia)).
+      rewrite Q_n_byte in H. lia.
+    - rewrite (split_P k Hk).
+      rewrite (end_scan_units m Htab _ _ (wf_units_skipn m k us Hwf)), Q_fold, firstn_skipn.
+      unfold Pf. rewrite firstn_all. reflexivity.
   Qed.
 
   Lemma line_end_k_le k : k <= n -> line_end_k us k <= n.
@@ -558,88 +588,83 @@ Section Nav2.
     intros Hk. unfold line_end_k.
     assert (forall l : list unit, run_len l <= length l) as Hr.
     { induction l as [|[|c] l IH]; cbn; lia. }
-    specialize (Hr (skipn k us)). rewrite skipn_length in Hr. fold n in Hr. lia.
+    specialize (Hr (skipn k us)). rewrite skipn_length in Hr. lia.
   Qed.
 
   Theorem next_line_start_position_P k : k <= n ->
-    next_line_start_position m t (P m us k) =
-    Ok (if line_end_k us k <? n then Some (P m us (S (line_end_k us k))) else None).
+    next_line_start_position m t (Q k) =
+    Ok (if line_end_k us k <? n then Some (Q (S (line_end_k us k))) else None).
   Proof.
     intros Hk. unfold next_line_start_position.
-    rewrite (line_end_position_P m Htab us Hwf k Hk). cbn [bind].
-    apply (next_position_P m Htab us Hwf). apply line_end_k_le, Hk.
+    rewrite (line_end_position_P k Hk). cbn [bind].
+    apply next_position_P. apply line_end_k_le, Hk.
   Qed.
 
-  Lemma pacm_scan_units fuel f suf pre : wf_units m suf -> length suf < fuel ->
-    pacm_scan fuel m (ctext m suf) f (canon_u m pre)
-    = Ok (canon_u m (pre ++ firstn (class_run m f suf) suf)).
+  Lemma pacm_scan_units fuel f suf p : wf_units m suf -> length suf < fuel ->
+    pacm_scan fuel m (ctext m suf) f p
+    = Ok (fold_left (adv m) (firstn (class_run m f suf) suf) p).
   Proof.
-    revert suf pre; induction fuel as [|fu IH]; intros suf pre Hs Hf; [lia|].
+    revert suf p; induction fuel as [|fu IH]; intros suf p Hs Hf; [lia|].
     cbn [pacm_scan]. rewrite (next_suf_units m Htab _ _ Hs).
-    destruct suf as [|u r]; cbn [bind].
-    - cbn [class_run firstn]. rewrite app_nil_r. reflexivity.
-    - rewrite (unit_of_units m Htab u r Hs). cbn [class_run].
-      destruct (forallb f (utext m u)).
-      + rewrite <- canon_snoc. rewrite IH.
-        * cbn [firstn]. rewrite <- app_assoc. reflexivity.
-        * change (u :: r) with ([u] ++ r) in Hs. apply (wf_units_app_r _ _ _ Hs).
-        * cbn [length] in Hf. lia.
-      + cbn [firstn]. rewrite app_nil_r. reflexivity.
+    destruct suf as [|u r]; cbn [bind]; [reflexivity|].
+    rewrite (unit_of_units m Htab u r Hs). cbn [class_run].
+    destruct (forallb f (utext m u)); [|reflexivity].
+    rewrite IH; [reflexivity| |cbn [length] in Hf; lia].
+    change (u :: r) with ([u] ++ r) in Hs. apply (wf_units_app_r _ _ _ Hs).
   Qed.
 
   Lemma class_run_le f suf : class_run m f suf <= length suf.
   Proof. induction suf as [|u r IH]; cbn; [lia|]. destruct (forallb f (utext m u)); lia. Qed.
 
   Theorem position_after_chars_matching_P k f : k <= n ->
-    position_after_chars_matching m t (P m us k) f =
-    Ok (match class_run m f (skipn k us) with 0 => None | j => Some (P m us (k + j)) end).
+    position_after_chars_matching m t (Q k) f =
+    Ok (match class_run m f (skipn k us) with 0 => None | j => Some (Q (k + j)) end).
   Proof.
-    intros Hk. unfold position_after_chars_matching. rewrite (split_P m Htab us Hwf k Hk).
-    unfold P at 1. rewrite pacm_scan_units.
+    intros Hk. unfold position_after_chars_matching. rewrite (split_P k Hk).
+    rewrite pacm_scan_units.
     2: apply wf_units_skipn, Hwf.
     2:{ pose proof (units_length_le m (skipn k us)). lia. }
-    cbn [bind]. rewrite firstn_add. fold (P m us (k + class_run m f (skipn k us))). fold (P m us k).
-    pose proof (class_run_le f (skipn k us)) as Hle. rewrite skipn_length in Hle. fold n in Hle.
+    cbn [bind]. rewrite Q_fold, firstn_add. fold (Pf m p0 us (k + class_run m f (skipn k us))).
+    pose proof (class_run_le f (skipn k us)) as Hle. rewrite skipn_length in Hle.
     destruct (class_run m f (skipn k us)) as [|j] eqn:E.
-    - rewrite Nat.add_0_r. destruct (pos_eqb_spec (P m us k) (P m us k)); congruence.
-    - destruct (pos_eqb_spec (P m us (k + S j)) (P m us k)) as [Eq|_]; [|reflexivity].
-      pose proof (P_byte_mono m us k (k + S j) Hwf ltac:(lia) ltac:(unfold n in *; lia)).
+    - rewrite Nat.add_0_r. destruct (pos_eqb_spec (Q k) (Q k)); congruence.
+    - destruct (pos_eqb_spec (Q (k + S j)) (Q k)) as [Eq|_]; [|reflexivity].
+      pose proof (Pf_byte_mono m p0 us k (k + S j) Hwf ltac:(lia) ltac:(lia)).
       rewrite Eq in H. lia.
   Qed.
 
   Theorem next_position_after_chars_matching_P k f : k <= n ->
-    next_position_after_chars_matching m t (P m us k) f =
+    next_position_after_chars_matching m t (Q k) f =
     Ok (match skipn k us with
-        | u :: _ => if forallb f (utext m u) then Some (P m us (S k)) else None
+        | u :: _ => if forallb f (utext m u) then Some (Q (S k)) else None
         | [] => None
         end).
   Proof.
-    intros Hk. unfold next_position_after_chars_matching. rewrite (split_P m Htab us Hwf k Hk).
+    intros Hk. unfold next_position_after_chars_matching. rewrite (split_P k Hk).
     rewrite (next_suf_units m Htab _ _ (wf_units_skipn m k us Hwf)).
     destruct (skipn k us) as [|u r] eqn:E; cbn [bind]; [reflexivity|].
-    rewrite <- E at 1.
     assert (Hs := wf_units_skipn m k us Hwf). rewrite E in Hs.
-    rewrite E, (unit_of_units m Htab u r Hs).
+    rewrite (unit_of_units m Htab u r Hs).
     assert (nth_error us k = Some u).
     { rewrite <- (Nat.add_0_r k), <- nth_error_skipn, E. reflexivity. }
-    rewrite (P_S m us k u H). reflexivity.
+    rewrite (Pf_S m p0 us k u H). reflexivity.
   Qed.
 
   (** position_after_str: the result is the canonical position after the pattern exactly when
       the pattern is the text of whole units starting at the base. *)
-  Lemma pas_scan_units fuel suf pat pre : wf_units m suf -> wf_text pat -> 0 < blen pat ->
+  Lemma pas_scan_units fuel suf pat p : wf_units m suf -> wf_text pat -> 0 < blen pat ->
     length suf < fuel ->
-    exists r, pas_scan fuel m (ctext m suf) pat (canon_u m pre) = Ok r /\
+    exists r, pas_scan fuel m (ctext m suf) pat p = Ok r /\
       (forall q, r = Some q -> exists j, j <= length suf /\ ctext m (firstn j suf) = pat
-                                          /\ q = canon_u m (pre ++ firstn j suf)) /\
+                                          /\ q = fold_left (adv m) (firstn j suf) p) /\
       (forall j, j <= length suf -> ctext m (firstn j suf) = pat ->
-                 r = Some (canon_u m (pre ++ firstn j suf))).
+                 r = Some (fold_left (adv m) (firstn j suf) p)).
   Proof.
-    revert suf pat pre; induction fuel as [|fu IH]; intros suf pat pre Hs Hp Hb Hf; [lia|].
+    revert suf pat p; induction fuel as [|fu IH]; intros suf pat p Hs Hp Hb Hf; [lia|].
     cbn [pas_scan]. rewrite (next_suf_units m Htab _ _ Hs).
     destruct suf as [|u r]; cbn [bind].
     - exists None. repeat split; [discriminate|].
-      intros j Hj E. rewrite firstn_nil in E. cbn in E. subst pat. cbn in Hb. lia.
+      intros j Hj E. rewrite firstn_nil in E. apply (f_equal blen) in E; cbn in E; lia.
     - rewrite (unit_of_units m Htab u r Hs).
       assert (Hr : wf_units m r) by (change (u :: r) with ([u] ++ r) in Hs; apply (wf_units_app_r _ _ _ Hs)).
       assert (Hu1 : wf_units m [u]) by (change [u] with (firstn 1 (u :: r)); apply wf_units_firstn, Hs).
@@ -654,15 +679,15 @@ Section Nav2.
           -- assert (pat' = []).
              { destruct pat' as [|c p']; [reflexivity|]. inversion Hp'; subst. unfold wf_chr in *. cbn in Ez. lia. }
              subst pat'. rewrite app_nil_r in Epat.
-             exists (Some (adv m (canon_u m pre) u)). split; [reflexivity|]. split.
-             ++ intros q Hq. inversion Hq; subst q. exists 1. cbn [firstn length ctext flat_map].
-                rewrite app_nil_r. repeat split; [lia|congruence|]. rewrite <- canon_snoc. reflexivity.
+             exists (Some (adv m p u)). split; [reflexivity|]. split.
+             ++ intros q Hq. inversion Hq; subst q. exists 1. cbn [firstn length ctext flat_map fold_left].
+                rewrite app_nil_r. repeat split; [lia|congruence].
              ++ intros j Hj E. destruct j as [|j]; [apply (f_equal blen) in E; cbn in E; lia|].
                 cbn [firstn] in E. rewrite ctext_cons, Epat in E.
                 assert (ctext m (firstn j r) = []).
                 { apply (f_equal blen) in E. rewrite blen_app in E.
                   destruct (ctext m (firstn j r)) as [|c x] eqn:Ec; [reflexivity|].
-                  rewrite <- (app_nil_r (utext m u)) in E at 2. rewrite blen_app in E. cbn [blen] in E.
+                  cbn [blen] in E.
                   pose proof (wf_units_wf_text m (firstn j r) (wf_units_firstn m j r Hr)) as W.
                   rewrite Ec in W. inversion W; subst. unfold wf_chr in *. lia. }
                 assert (firstn j r = []).
@@ -672,17 +697,16 @@ Section Nav2.
                   { apply ulen_pos. change [u'] with (firstn 1 (u' :: r')). apply wf_units_firstn.
                     rewrite <- Ef. apply wf_units_firstn, Hr. }
                   apply (f_equal blen) in H. rewrite blen_app in H. cbn in H. lia. }
-                cbn [firstn]. rewrite H0, <- canon_snoc. reflexivity.
-          -- rewrite <- canon_snoc.
-             destruct (IH r pat' (pre ++ [u]) Hr Hp' ltac:(lia) ltac:(cbn [length] in Hf; lia))
+                cbn [firstn]. rewrite H0. reflexivity.
+          -- destruct (IH r pat' (adv m p u) Hr Hp' ltac:(lia) ltac:(cbn [length] in Hf; lia))
                as (res & Eres & Hsound & Hcompl).
              exists res. split; [exact Eres|]. split.
              ++ intros q Hq. destruct (Hsound q Hq) as (j & Hj & Ej & Eq).
-                exists (S j). cbn [firstn length]. rewrite ctext_cons, Ej, <- app_assoc in *.
+                exists (S j). cbn [firstn length fold_left]. rewrite ctext_cons, Ej.
                 repeat split; [lia|congruence|exact Eq].
              ++ intros j Hj E. destruct j as [|j]; [apply (f_equal blen) in E; cbn in E; lia|].
-                cbn [firstn length] in *. rewrite ctext_cons, Epat in E.
-                apply app_inv_head in E. rewrite (Hcompl j ltac:(lia) E), <- app_assoc. reflexivity.
+                cbn [firstn length fold_left] in *. rewrite ctext_cons, Epat in E.
+                apply app_inv_head in E. apply (Hcompl j ltac:(lia) E).
         * exists None. repeat split; [discriminate|].
           intros j Hj E. destruct j as [|j]; [apply (f_equal blen) in E; cbn in E; lia|].
           cbn [firstn] in E. rewrite ctext_cons in E. exfalso. apply Ne.
@@ -694,16 +718,16 @@ Section Nav2.
   Qed.
 
   Theorem position_after_str_P k pat : k <= n -> wf_text pat ->
-    exists r, position_after_str m t (P m us k) pat = Ok r /\
+    exists r, position_after_str m t (Q k) pat = Ok r /\
       (forall q, r = Some q -> exists j, k + j <= n /\ ctext m (firstn j (skipn k us)) = pat
-                                          /\ q = P m us (k + j)) /\
-      (forall j, k + j <= n -> ctext m (firstn j (skipn k us)) = pat -> r = Some (P m us (k + j))).
+                                          /\ q = Q (k + j)) /\
+      (forall j, k + j <= n -> ctext m (firstn j (skipn k us)) = pat -> r = Some (Q (k + j))).
   Proof.
     intros Hk Hp. unfold position_after_str.
     destruct (Nat.eqb_spec (blen pat) 0) as [Ez|Enz].
     - assert (pat = []).
       { destruct pat as [|c p']; [reflexivity|]. inversion Hp; subst. unfold wf_chr in *. cbn in Ez. lia. }
-      subst pat. exists (Some (P m us k)). split; [reflexivity|]. split.
+      subst pat. exists (Some (Q k)). split; [reflexivity|]. split.
       + intros q Hq. inversion Hq; subst. exists 0. rewrite Nat.add_0_r. repeat split; lia.
       + intros j Hj E.
         assert (firstn j (skipn k us) = []).
@@ -717,25 +741,73 @@ Section Nav2.
         { destruct j; [left; reflexivity|]. destruct (skipn k us); [right; reflexivity|discriminate]. }
         * rewrite Nat.add_0_r. reflexivity.
         * assert (length (skipn k us) = 0) by (rewrite E0; reflexivity).
-          rewrite skipn_length in H0. fold n in H0. replace (k + j) with k by lia. reflexivity.
-    - rewrite (split_P m Htab us Hwf k Hk). unfold P at 1.
-      destruct (pas_scan_units (S (length (ctext m (skipn k us)))) (skipn k us) pat (firstn k us)
+          rewrite skipn_length in H0. replace (k + j) with k by lia. reflexivity.
+    - rewrite (split_P k Hk).
+      destruct (pas_scan_units (S (length (ctext m (skipn k us)))) (skipn k us) pat (Q k)
                   (wf_units_skipn m k us Hwf) Hp ltac:(lia)
                   ltac:(pose proof (units_length_le m (skipn k us)); lia))
         as (res & Eres & Hsound & Hcompl).
       exists res. split; [exact Eres|]. split.
       + intros q Hq. destruct (Hsound q Hq) as (j & Hj & Ej & Eq). exists j.
-        rewrite skipn_length in Hj. fold n in Hj. rewrite firstn_add in Eq. repeat split; [lia|exact Ej|exact Eq].
-      + intros j Hj E. rewrite (Hcompl j); [rewrite firstn_add; reflexivity| |exact E].
-        rewrite skipn_length. fold n. lia.
+        rewrite skipn_length in Hj. rewrite Q_fold, firstn_add in Eq. repeat split; [lia|exact Ej|exact Eq].
+      + intros j Hj E. rewrite (Hcompl j); [rewrite Q_fold, firstn_add; reflexivity| |exact E].
+        rewrite skipn_length. lia.
   Qed.
-End Nav2.
+End Nav.
+
+(** Backward measurement to the start, and the previous line's end, when measurement starts
+    at column 0 (a whole document). *)
+Section NavZeroCol.
+  Variable m : metrics.
+  Hypothesis Htab : 1 <= tabw m.
+  Variable us : list unit.
+  Hypothesis Hwf : wf_units m us.
+  Variable p0 : pos.
+  Hypothesis Hp0 : byte p0 = 0.
+  Hypothesis Hc0 : col p0 = 0.
+  Local Notation t := (ctext m us).
+  Local Notation n := (length us).
+  Local Notation Q := (Pf m p0 us).
+
+  Lemma prev_P k : k <= n ->
+    previous_position m t (Q k) = Ok (match k with 0 => None | S k' => Some (Q k') end).
+  Proof. intros Hk. apply (previous_position_P m Htab us Hwf p0 Hp0 k Hk). intros; left; exact Hc0. Qed.
+
+  Lemma start_loop_P fuel k : k <= n -> k < fuel -> start_loop fuel m t (Q k) = Ok (Q 0).
+  Proof.
+    revert k; induction fuel as [|f IH]; intros k Hk Hf; [lia|].
+    cbn [start_loop]. destruct k as [|k'].
+    - rewrite Pf_0, Hp0. reflexivity.
+    - pose proof (Pf_byte_mono m p0 us 0 (S k') Hwf ltac:(lia) Hk) as Hm.
+      destruct (Nat.eqb_spec (byte (Q (S k'))) 0) as [E|_]; [lia|].
+      rewrite (prev_P (S k') Hk). cbn [bind]. apply IH; lia.
+  Qed.
+
+  Theorem start_position_P k : k <= n -> start_position m t (Q k) = Ok (Q 0).
+  Proof.
+    intros Hk. unfold start_position. apply start_loop_P; [exact Hk|].
+    pose proof (units_length_le m us). lia.
+  Qed.
+
+  Theorem previous_line_end_position_P k : k <= n ->
+    previous_line_end_position m t (Q k) =
+    Ok (match line_start_k us k with 0 => None | S j => Some (Q j) end).
+  Proof.
+    intros Hk. unfold previous_line_end_position.
+    rewrite (line_start_position_P m Htab us Hwf p0 Hp0 k Hk (or_introl Hc0)). cbn [bind].
+    apply prev_P. pose proof (line_start_k_le us k). lia.
+  Qed.
+End NavZeroCol.
 
 (** * Text-level statements (what properties/C19.v cites) *)
 
 Definition nunits (m : metrics) (t : text) : nat := length (units m t).
 (** the k-th canonical position of a text *)
-Definition cpos (m : metrics) (t : text) (k : nat) : pos := P m (units m t) k.
+Definition cpos (m : metrics) (t : text) (k : nat) : pos := Pf m pos_zero (units m t) k.
+
+(** ... which is the declarative triple of MetricsSpec: bytes, line endings, display width. *)
+Lemma cpos_decl m t k : cpos m t k = canon_u m (firstn k (units m t)).
+Proof. apply canon_from_zero. Qed.
 
 Section TextLevel.
   Variable m : metrics.
@@ -746,23 +818,26 @@ Section TextLevel.
   Let Hwf : wf_units m us := wf_units_units m t Ht.
   Let Et : ctext m us = t := ctext_units m t.
 
+  Let Hz : byte pos_zero = 0 := eq_refl.
+  Let Hc : col pos_zero = 0 := eq_refl.
+
   Ltac via L := let H := fresh in pose proof L as H; rewrite Et in H; exact H.
 
   Lemma canon_chain : forall p q, Canon m t p -> Canon m t q -> byte p = byte q -> p = q.
   Proof.
-    intros p q (j & Hj & ->) (k & Hk & ->) E.
+    intros p q (j & Hj & ->) (k & Hk & ->) E. rewrite <- !Pf_zero in *.
     destruct (Nat.lt_trichotomy j k) as [H|[->|H]]; [|reflexivity|].
-    - pose proof (P_byte_mono m (units m t) j k Hwf H Hk). lia.
-    - pose proof (P_byte_mono m (units m t) k j Hwf H Hj). lia.
+    - pose proof (Pf_byte_mono m pos_zero (units m t) j k Hwf H Hk). lia.
+    - pose proof (Pf_byte_mono m pos_zero (units m t) k j Hwf H Hj). lia.
   Qed.
 
   Lemma t_next k : k <= nunits m t ->
     next_position m t (cpos m t k) = Ok (if k <? nunits m t then Some (cpos m t (S k)) else None).
-  Proof. intros Hk. via (next_position_P m Htab us Hwf k Hk). Qed.
+  Proof. intros Hk. via (next_position_P m Htab us Hwf pos_zero Hz k Hk). Qed.
 
   Lemma t_prev k : k <= nunits m t ->
     previous_position m t (cpos m t k) = Ok (match k with 0 => None | S j => Some (cpos m t j) end).
-  Proof. intros Hk. via (previous_position_P m Htab us Hwf k Hk). Qed.
+  Proof. intros Hk. via (prev_P m Htab us Hwf pos_zero Hz Hc k Hk). Qed.
 
   Lemma t_next_prev k : k < nunits m t ->
     next_position m t (cpos m t k) = Ok (Some (cpos m t (S k))) /\
@@ -793,11 +868,11 @@ Section TextLevel.
       Ok (match nth_error us k with Some u => is_lb u | None => false end).
   Proof.
     intros Hk. repeat split.
-    - via (line_start_position_P m Htab us Hwf k Hk).
-    - via (line_end_position_P m Htab us Hwf k Hk).
-    - via (next_line_start_position_P m Htab us Hwf k Hk).
-    - via (previous_line_end_position_P m Htab us Hwf k Hk).
-    - via (is_line_break_P m Htab us Hwf k Hk).
+    - via (line_start_position_P m Htab us Hwf pos_zero Hz k Hk (or_introl Hc)).
+    - via (line_end_position_P m Htab us Hwf pos_zero Hz k Hk).
+    - via (next_line_start_position_P m Htab us Hwf pos_zero Hz k Hk).
+    - via (previous_line_end_position_P m Htab us Hwf pos_zero Hz Hc k Hk).
+    - via (is_line_break_P m Htab us Hwf pos_zero Hz k Hk).
   Qed.
 
   Lemma t_start_end k : k <= nunits m t ->
@@ -805,8 +880,8 @@ Section TextLevel.
     end_position m t (cpos m t k) = Ok (cpos m t (nunits m t)).
   Proof.
     intros Hk. split.
-    - via (start_position_P m Htab us Hwf k Hk).
-    - via (end_position_P m Htab us Hwf k Hk).
+    - via (start_position_P m Htab us Hwf pos_zero Hz Hc k Hk).
+    - via (end_position_P m Htab us Hwf pos_zero Hz k Hk).
   Qed.
 
   Lemma t_after_str k pat : k <= nunits m t -> wf_text pat ->
@@ -815,7 +890,7 @@ Section TextLevel.
                                           /\ q = cpos m t (k + j)) /\
       (forall j, k + j <= nunits m t -> ctext m (firstn j (skipn k us)) = pat ->
                  r = Some (cpos m t (k + j))).
-  Proof. intros Hk Hp. via (position_after_str_P m Htab us Hwf k pat Hk Hp). Qed.
+  Proof. intros Hk Hp. via (position_after_str_P m Htab us Hwf pos_zero Hz k pat Hk Hp). Qed.
 
   Lemma t_chars_matching k f : k <= nunits m t ->
     position_after_chars_matching m t (cpos m t k) f =
@@ -827,8 +902,8 @@ Section TextLevel.
           end).
   Proof.
     intros Hk. split.
-    - via (position_after_chars_matching_P m Htab us Hwf k f Hk).
-    - via (next_position_after_chars_matching_P m Htab us Hwf k f Hk).
+    - via (position_after_chars_matching_P m Htab us Hwf pos_zero Hz k f Hk).
+    - via (next_position_after_chars_matching_P m Htab us Hwf pos_zero Hz k f Hk).
   Qed.
 End TextLevel.
 
